@@ -21,7 +21,7 @@ LIMS = [("none", None, None)] + [("min", e, None) for e in (False, True)] + [("m
        [("both", a, b) for a in (False, True) for b in (False, True)]
 UNITS = [("length", "m", "m"), ("length", "m", "ft"), ("length", "in", "m"), ("length", "in", "cm"), ("temperature", "degC", "K"),
          ("temperature", "K", "degF"), ("volume flow rate", "m3/d", "1000ft3/d"), ("pressure", "psi", "bar")]
-CLASSES = ["Scalar", "FractionScalar", "db.CheckValueForCategory", "Array.list", "Array.tuple", "Array.numpy", "Array.tuples", "FixedArray.list"]
+CLASSES = ["Scalar", "FractionScalar", "FractionScalar.frac", "db.CheckValueForCategory", "Array.list", "Array.tuple", "Array.numpy", "Array.tuples", "FixedArray.list"]
 BOUNDS = {
     "quick": "Real mode: amounts, min, max and default value range over ALL reals through the real AddCategory (9 limit configurations x given/auto "
              "default), 8 (quantity type, default unit, value unit) triples incl. affine, legacy-spelled and non-base default units, 8 value classes, "
@@ -126,6 +126,10 @@ def run(cfg, V):
             o = Scalar(xs[0], u, cat)
         elif cls == "FractionScalar":
             o = FractionScalar(xs[0], u, cat)
+        elif cls == "FractionScalar.frac":
+            from barril.basic.fraction import FractionValue
+
+            o = FractionScalar(FractionValue(xs[0], (3, 4)), u, cat)
         elif cls == "db.CheckValueForCategory":
             o = None
         elif cls == "Array.list":
@@ -143,10 +147,14 @@ def run(cfg, V):
         if o is None:
             v1 = _verdict(lambda: sdb.CheckValueForCategory(cat, xs[0], u))
             return reg | {"v1": v1, "v2": v1, "isvalid": v1["ok"], "isvalid2": v1["ok"]}
+        from .common import snap_value
+
+        before = snap_value(o)
+        cont = o.GetAbstractValue()
         isvalid = o.IsValid()
         v1 = _verdict(o.CheckValidity)
         v2 = _verdict(o.CheckValidity)
-        return reg | {"v1": v1, "v2": v2, "isvalid": isvalid, "isvalid2": o.IsValid()}
+        return reg | {"v1": v1, "v2": v2, "isvalid": isvalid, "isvalid2": o.IsValid(), "untouched": snap_value(o) == before and o.GetAbstractValue() is cont}
 
 
 def _cmpz(fp):
@@ -204,6 +212,8 @@ def props(cfg, T, obs):
     db = get_db("default")
     n = cfg["n"]
     xs = [T["x%d" % i] for i in range(n)]
+    if cfg["cls"] == "FractionScalar.frac":
+        xs = [x + z3.RealVal("3/4") for x in xs]
     conv = [oracle_convert(db, cfg["qt"], cfg["u"], cfg["du"], x) if not fp else x for x in xs]
     flat = cfg["cls"] in ("Array.list", "Array.tuple", "Array.numpy", "FixedArray.list")
     if fp and flat:
@@ -213,6 +223,8 @@ def props(cfg, T, obs):
     want = z3.And(*elem_ok) if elem_ok else z3.BoolVal(True)
     v1, v2 = obs["v1"], obs["v2"]
     P.append(("accepted exactly when every amount, in the default unit, satisfies the limits", z3.BoolVal(v1["ok"]) == want))
+    if "untouched" in obs:
+        P.append(("validation leaves the object and its container (contents and order) as they were", bool(obs["untouched"])))
     P.append(("IsValid agrees with CheckValidity and repeated calls give the same verdict",
               obs["isvalid"] == v1["ok"] and obs["isvalid2"] == v1["ok"] and v2["ok"] == v1["ok"]))
     if not v1["ok"]:
